@@ -206,7 +206,7 @@ def concurrent_first_use(rec, rng, n):
 
 def run(shard, rec, rng):
     from werkzeug.exceptions import HTTPException
-    from werkzeug.routing import Map, Rule, Subdomain, Submount
+    from werkzeug.routing import EndpointPrefix, Map, RequestRedirect, Rule, Subdomain, Submount
     from werkzeug.routing import map as MP
     from werkzeug.routing import rules as RR
 
@@ -256,11 +256,31 @@ def run(shard, rec, rng):
                 if lit and segs[-2] == "mid":
                     base_segs = segs[:-2]
                 rs0 = "/" + "/".join(base_segs) + "/"
-                rules.append(Rule(rs0, endpoint=f"ep{i}", defaults={f"v{last}": dval}, **kw))
                 defaults = (f"v{last}", dval)
                 rec.observe("with_defaults")
-            rules.append(Rule(rs, endpoint=f"ep{i}", **kw))
+                if rng.random() < 0.5:
+                    rules.append(Rule(rs0, endpoint=f"ep{i}", defaults={f"v{last}": dval}, **kw))
+                    rules.append(Rule(rs, endpoint=f"ep{i}", **kw))
+                else:
+                    # the general rule registered before the rule that carries the defaults
+                    rules.append(Rule(rs, endpoint=f"ep{i}", **kw))
+                    rules.append(Rule(rs0, endpoint=f"ep{i}", defaults={f"v{last}": dval}, **kw))
+                    rec.observe("with_defaults_general_rule_first")
+            else:
+                rules.append(Rule(rs, endpoint=f"ep{i}", **kw))
             specs.append((rs, convs, kw, defaults))
+        # rule factories around the rules of any configuration (they re-create every rule through Rule.empty())
+        epfx = ""
+        wrap = rng.choice([None, None, "submount", "nested", "endpointprefix"]) if mode != "submount" else None
+        if wrap == "submount":
+            rules = [Submount("/w", rules)]
+        elif wrap == "nested":
+            rules = [Submount("/o", [Submount("/i", rules[:1]), *rules[1:]])]
+        elif wrap == "endpointprefix":
+            rules = [EndpointPrefix("pfx.", rules)]
+            epfx = "pfx."
+        if wrap:
+            rec.observe(f"wrap:{wrap}:{mode}")
         try:
             if mode == "submount":
                 m = Map([Submount("/sub m", rules)])
@@ -297,13 +317,13 @@ def run(shard, rec, rng):
                 extra = {"q": text(rng), "é": ["1", "2"], "e m": ""} if rng.random() < 0.4 else {}
                 fe = rng.random() < 0.5
                 case = {"rule": rs, "mode": mode, "script": script, "values": {k: repr(v) for k, v in vals.items()}, "extra": extra,
-                        "force_external": fe, "all_rules": [str(r) for r in rules]}
+                        "force_external": fe, "wrap": wrap, "all_rules": [str(r) for r in m.iter_rules()]}
                 rec.case()
                 if is_nontrivial(vals, mode):
                     rec.nontrivial((rs, mode, script, repr(sorted(vals.items(), key=lambda kv: kv[0])), fe, bool(extra)))
                 with rec.guard(case, "C04"):
                     spy.pairs = []
-                    url = ad.build(f"ep{i}", {**vals, **extra}, force_external=fe)
+                    url = ad.build(f"{epfx}ep{i}", {**vals, **extra}, force_external=fe)
                     spy.check(case)
                     u = urlsplit(url)
                     sp = script.rstrip("/")
@@ -327,7 +347,7 @@ def run(shard, rec, rng):
                         rec.violation(f"C04/law1-match-raises-{type(e).__name__}", f"built {url!r}, delivered {pi!r}: {e!r}; rule {rs} values {vals!r}", case, monitor="law1")
                         continue
                     rec.observe("law1_checked")
-                    if ep != f"ep{i}" or dict(args) != vals or any(type(args[k]) is not type(vals[k]) for k in vals):
+                    if ep != f"{epfx}ep{i}" or dict(args) != vals or any(type(args[k]) is not type(vals[k]) for k in vals):
                         rec.violation("C04/law1-values-differ", f"rule {rs} values {vals!r} built {url!r} matched {ep} {dict(args)!r}", case, monitor="law1")
                         continue
                     if extra:
@@ -342,6 +362,37 @@ def run(shard, rec, rng):
                     n2 = urlsplit(url2).netloc  # ad2 is bound to the URL's own host, so a relative URL is the same URL
                     if unquote(urlsplit(url2).path) != unquote(u.path) or (n2 and u.netloc and n2 != u.netloc):
                         rec.violation("C04/law2-rebuilt-url-differs", f"{url!r} -> {ep} {dict(args)!r} -> {url2!r}", case, monitor="law2")
+                # ---- law 2 from the other side: a URL that is NOT the adapter's choice.  Every rule of the endpoint renders
+                # its own URL for these values (Rule.build, no rule selection involved); where that URL matches
+                # successfully, building from the match result has to give that very URL back.
+                with rec.guard(case, "C04"):
+                    for r in m.iter_rules():
+                        if r.endpoint != f"{epfx}ep{i}":
+                            continue
+                        full = dict(vals)
+                        full.update(r.defaults or {})
+                        built = r.build(full, False)
+                        if built is None:
+                            continue
+                        dom, rpath = built
+                        pi3 = unquote(rpath)
+                        ad3 = m.bind(dom, script) if mode == "host" else m.bind("h.com", script, subdomain=dom)
+                        try:
+                            ep3, args3 = ad3.match(pi3)
+                        except RequestRedirect:
+                            rec.observe("law2b_redirected_not_a_successful_match")
+                            continue
+                        except HTTPException as e:
+                            rec.violation(f"C04/law2b-rule-own-url-raises-{type(e).__name__}", f"rule {r.rule!r} rendered {rpath!r} for {full!r}: {e!r}", case, monitor="law2")
+                            continue
+                        rec.observe("law2b_checked")
+                        if r.defaults:
+                            rec.observe("law2b_checked_defaults_rule")
+                        url3 = ad3.build(ep3, args3)
+                        sp = script.rstrip("/")
+                        p3 = urlsplit(url3).path
+                        if not p3.startswith(sp + "/") or unquote(p3[len(sp):]) != pi3:
+                            rec.violation("C04/law2-rebuilt-url-differs", f"matched {pi3!r} (rule {r.rule!r}) -> {ep3} {dict(args3)!r} -> rebuilt {url3!r}", case, monitor="law2")
                 if len(rec.samples) < 5 and is_nontrivial(vals, mode) and extra:
                     rec.sample(dict(case, built=url))
     reach.finish()
